@@ -21,7 +21,7 @@ KIT = {'engine': 'cbmc-seq', 'src': 'submit.cpp', 'models': ['aligned_alloc'],
        'repo_sources': ['dispenso/thread_pool_wake.cpp'],
        # out of line = executed without preemption: harness build/teardown and (quick tier) the producer-side
        # REAL wake functions; the worker-side REAL functions (enterSleep, exitSleep, waitFor, current) are always inlined
-       'no_inline': ['_ZL7k_buildv', '_ZL10k_teardownv', '_ZL13k_cascadeWakei'] + WAKE_FNS,
+       'no_inline': ['_ZL7k_buildv', '_ZL10k_teardownv', '_ZL13k_cascadeWakei', '_ZL12k_enterSleepi', '_ZL11k_exitSleepi'] + WAKE_FNS,
        'unwind_fn': dict({'_ZL7k_buildv': 6, '_ZL10k_teardownv': 5}, **{f: 5 for f in WAKE_FNS}),
        'spin_loops': True, 'unwind': 3, 'timeout': 420, 'rt_defs': {'VF_SPURIOUS': 0}}
 
@@ -40,6 +40,9 @@ def inst(name, path, n, g, steps, bounds, tiers=('quick', 'thorough'), **kw):
 
 
 INSTANCES = [
-    inst('schedule_n1', 1, 1, 1, 3, 'one schedule() onto the fully parked pool'),
+    inst('rings_n2_c1', 3, 2, 2, 2, 'scheduleBulkToRings(1): task 0 in ring 0, cascadeWakeSeed(1); enterSleep/exitSleep one step each',
+         defs={'VF_MAXCOUNT': 1, 'VF_COARSE_SLEEP': 1}, preempts=2, timeout=1500),
+    inst('schedule_n1', 1, 1, 1, 2, 'one schedule() (central queue, claimAndWakeOne) onto the parked pool; enterSleep/exitSleep one step each',
+         defs={'VF_COARSE_SLEEP': 1}, preempts=2, timeout=1500),
     inst('schedule_n2', 1, 2, 2, 3, 'one schedule() onto the fully parked pool', tiers=('experimental',)),
 ]
